@@ -213,7 +213,7 @@ CHECKS = {
         "parse(print(p)) equals p up to exactly the three documented losses, "
         "that case/order variants have the identical canonical URI, that "
         "every printed URI is accepted, and that both parsers are total on "
-        "every single-symbol mutation; 8 wrong design variants (5 = the "
+        "every single-symbol mutation; 10 wrong design variants (5 = the "
         "pinned tree) must fail. Each path (with random case, key order and "
         "numeric width) x format and ~10^4-10^5 mutated / raw texts run on "
         "the real to_wbem_uri/str()/get_cimobject_header and from_wbem_uri; "
@@ -296,8 +296,8 @@ CHECKS = {
         "length 4 (5), and that the transcribed _imethodcall/_methodcall/"
         "_iexportcall + tocimxml() assembly yields a DTD-valid document with "
         "agreeing CIMMethod/CIMObject headers for every operation x argument-"
-        "shape case with up to two dimensions off base (11 452 cases; the design "
-        "as pinned and three regressions are refuted); every case is run through "
+        "shape case with up to two dimensions off base (17 597 cases incl. empty and gapped namespaces in every role; the design "
+        "as pinned and four regressions are refuted); every case is run through "
         "the real operation method and the captured body+headers must be valid, "
         "agree, and equal the transcription; seeded random objects of every "
         "kind, random calls with unusual names, characters XML 1.0 cannot carry "
@@ -315,12 +315,12 @@ CHECKS = {
         "are rendered to real MOF and replayed on the real compiler, TLC judges the "
         "recorded compile calls",
         "TLC enumerates every session of <=3 (quick) / <=4 (thorough) productions plus "
-        "an include file in which one production carries any of 909 defects/variants "
+        "an include file in which one production carries any of 914 defects/variants "
         "(lexical, token mutations, type/value mismatches, dependencies, include "
         "cycles, repository rejections with all 26 CIM status codes) and proves that "
         "the code-shaped compile_file/compile_string machine refines the requirement "
         "(admissible outcome, error names its own file, compiler reusable, every call "
-        "terminates), while 8 realistic wrong shapes (no include guard, None check "
+        "terminates), while 10 realistic wrong shapes (no include guard, None check "
         "after use, missing finally, ...) fail; the sessions are rendered with "
         "randomised spelling and run through compile_string, compile_file and "
         "compile_mof_string on four repository kinds under a watchdog, followed by "
